@@ -3510,6 +3510,9 @@ impl<'s> Semantics<'s> {
             if lhs.bits() != rhs.bits() {
                 rhs = Expr::zext(lhs.bits(), rhs)?;
             }
+            // the processor masks the count to 5 bits (6 bits for 64-bit operands)
+            let count_mask = if lhs.bits() == 64 { 0x3f } else { 0x1f };
+            rhs = Expr::and(rhs, expr_const(count_mask, lhs.bits()))?;
 
             // Do the SAR
             let expr = Expr::ashr(lhs.clone(), rhs.clone())?;
@@ -3758,6 +3761,9 @@ impl<'s> Semantics<'s> {
             if lhs.bits() != rhs.bits() {
                 rhs = Expr::zext(lhs.bits(), rhs)?;
             }
+            // the processor masks the count to 5 bits (6 bits for 64-bit operands)
+            let count_mask = if lhs.bits() == 64 { 0x3f } else { 0x1f };
+            rhs = Expr::and(rhs, expr_const(count_mask, lhs.bits()))?;
 
             // Do the SHL
             let expr = Expr::shl(lhs.clone(), rhs.clone())?;
@@ -3818,6 +3824,9 @@ impl<'s> Semantics<'s> {
             if lhs.bits() != rhs.bits() {
                 rhs = Expr::zext(lhs.bits(), rhs)?;
             }
+            // the processor masks the count to 5 bits (6 bits for 64-bit operands)
+            let count_mask = if lhs.bits() == 64 { 0x3f } else { 0x1f };
+            rhs = Expr::and(rhs, expr_const(count_mask, lhs.bits()))?;
 
             // Do the SHR
             let expr = Expr::shr(lhs.clone(), rhs.clone())?;
@@ -3875,6 +3884,9 @@ impl<'s> Semantics<'s> {
             let count = self.operand_load(block, &detail.operands[2])?;
 
             let bits = dst.bits();
+            // the processor masks the count to 5 bits (6 bits for 64-bit operands)
+            let count_mask = if bits == 64 { 0x3f } else { 0x1f };
+            let count = Expr::and(count.clone(), expr_const(count_mask, count.bits()))?;
             let tmp = Expr::or(
                 Expr::shl(
                     Expr::zext(bits * 2, dst.clone())?,
@@ -3931,6 +3943,9 @@ impl<'s> Semantics<'s> {
             let count = self.operand_load(block, &detail.operands[2])?;
 
             let bits = dst.bits();
+            // the processor masks the count to 5 bits (6 bits for 64-bit operands)
+            let count_mask = if bits == 64 { 0x3f } else { 0x1f };
+            let count = Expr::and(count.clone(), expr_const(count_mask, count.bits()))?;
             let tmp = Expr::or(
                 Expr::zext(bits * 2, dst.clone())?,
                 Expr::shl(
